@@ -7,6 +7,7 @@ mod codec;
 mod store;
 mod world;
 mod invite;
+mod crashw;
 
 fn main() {
     let args: Vec<String> = std::env::args().collect();
@@ -15,6 +16,7 @@ fn main() {
         Some("mgr") => mgr::main(&args[2..]),
         Some("world") => world::main(&args[2..]),
         Some("invite") => invite::main(&args[2..]),
+        Some("crashw") => crashw::main(&args[2..]),
         Some("leak") => leak::main(&args[2..]),
         Some("atrest") => atrest::main(&args[2..]),
         Some("conc") => conc::main(&args[2..]),
